@@ -95,7 +95,7 @@ type okCase struct {
 	clientStatus string // "ok" | "no-direct" | "error" | "close"
 }
 
-var okCases = []okCase{{"client-ok", "ok"}, {"client-no-direct", "no-direct"}, {"client-error", "error"}, {"client-close", "close"}}
+var okCases = []okCase{{"client-ok", "ok"}, {"client-no-direct", "no-direct"}, {"client-error", "error"}, {"client-close", "close"}, {"client-no-direct-no-text", "no-direct-no-text"}, {"client-error-no-text", "error-no-text"}}
 
 var protos = []string{"h1", "h2", "h3", "tcp-yamux", "tcp-quic", "connect"}
 
@@ -155,6 +155,11 @@ func (w *world) dial(ctx context.Context, link *protocol.Link) (net.Conn, error)
 			tun.SendStatusProto(c2, transport.ErrNoDirect)
 		case "error":
 			tun.SendStatusProto(c2, errors.New("client could not reach its target"))
+		case "no-direct-no-text":
+			// the error text of a status frame is optional: the code alone says it is a failure
+			rpc.Send(c2, &protocol.TunnelStatus{Status: protocol.TunnelStatusCode_NO_DIRECT})
+		case "error-no-text":
+			rpc.Send(c2, &protocol.TunnelStatus{Status: protocol.TunnelStatusCode_UNKNOWN_ERROR})
 		case "close":
 		}
 	}()
@@ -503,7 +508,7 @@ func judge(r *ev.Run, w *world, j job, o obs, err error) {
 			if !o.gotStatus || o.status != protocol.TunnelStatusCode_STATUS_OK || !o.echoOK {
 				viol("tcp-success-path:"+j.proto, fmt.Sprintf("client accepted and sent STATUS_OK: caller saw status=%v %s echo=%v (%s)", o.gotStatus, o.status, o.echoOK, o.readErr))
 			}
-		case "no-direct", "error":
+		case "no-direct", "error", "no-direct-no-text", "error-no-text":
 			if o.gotStatus && o.status == protocol.TunnelStatusCode_STATUS_OK {
 				viol("tcp-success-on-client-failure:"+j.proto, "the client end reported a failure, the caller received STATUS_OK")
 			}
